@@ -523,14 +523,23 @@ func ruleScatterPlacesEveryPeer(c *Ctx) {
 	create := F(P.Func("server/schedule/operator", "CreateScatterRegionOperator"))
 	// the placement helper: the part of scatterRegion (a closure, or the function itself) that calls selectStore
 	var helper *ssa.Function
-	for _, a := range sr.AnonFuncs {
-		if len(callsIn(a, false, selectStore)) > 0 {
-			helper = a
+	if len(callsIn(sr, false, selectStore)) > 0 {
+		// written inline: every loop of scatterRegion that selects a store files the result
+		helper = sr
+	} else {
+		for _, b := range sr.Blocks {
+			for _, ins := range b.Instrs {
+				if ci, ok := ins.(ssa.CallInstruction); ok {
+					if f := ci.Common().StaticCallee(); f != nil && len(f.Blocks) > 0 && len(callsIn(f, false, selectStore)) > 0 {
+						helper = f
+					}
+				}
+			}
 		}
 	}
 	if helper == nil {
-		// written inline: every loop of scatterRegion that selects a store files the result
-		helper = sr
+		c.Undec(rule, "placement helper of "+fnName(sr), "the part of scatterRegion that calls selectStore", P.pos(sr.Pos()), "")
+		return
 	}
 	isPlace := func(x ssa.Instruction) bool {
 		if helper == sr {
@@ -541,12 +550,22 @@ func ruleScatterPlacesEveryPeer(c *Ctx) {
 	}
 	// (1) inside the helper: each peer visited is filed in the target map
 	n := 0
-	for _, l := range loopsOf(helper) {
+	helperLoops := loopsOf(helper)
+	for _, l := range helperLoops {
 		has := false
 		for b := range l.blocks {
 			for _, ins := range b.Instrs {
 				if isCallTo(ins, selectStore) {
-					has = true
+					// the innermost loop around the call is the loop over the peers
+					inner := true
+					for _, l2 := range helperLoops {
+						if l2.header != l.header && l2.blocks[b] && len(l2.blocks) < len(l.blocks) {
+							inner = false
+						}
+					}
+					if inner {
+						has = true
+					}
 				}
 			}
 		}
